@@ -58,7 +58,7 @@ var Check = &run.Check{
 	Run: runCase,
 }
 
-var opts = javagen.Opts{MinFiles: 1, MaxFiles: 6, MaxMethods: 6, MaxParams: 3, MaxFields: 4, Interfaces: true, Generics: true, Annotations: true, Ctors: true, Overloads: true,
+var opts = javagen.Opts{TwoTypesPerFile: true, CaseTwinClasses: true, AnonClasses: true, AccessorNames: true, MinFiles: 1, MaxFiles: 6, MaxMethods: 6, MaxParams: 3, MaxFields: 4, Interfaces: true, Generics: true, Annotations: true, Ctors: true, Overloads: true,
 	Bodies: true, MaxStmts: 8, MaxSites: 25, Lambdas: true, MultiByte: true, HotBias: 6, FieldsFirst: true, CRLF: true, ExoticNames: true}
 
 var javaKeywords = map[string]bool{"do": true, "if": true, "for": true, "int": true, "new": true, "try": true, "var": true, "byte": true, "case": true, "char": true, "else": true, "enum": true, "goto": true, "long": true, "this": true, "void": true, "null": true, "true": true}
@@ -117,6 +117,7 @@ func runCase(c *run.Ctx, o *run.Outcome) {
 	taken := map[string]bool{}
 	type target struct {
 		f *javagen.File
+		t *javagen.TypeDecl
 		m *javagen.Method
 	}
 	var targets []target
@@ -129,15 +130,20 @@ func runCase(c *run.Ctx, o *run.Outcome) {
 			o.SetInconclusive("generated file rejected by coca's Java parser: " + first)
 			return
 		}
-		for _, m := range f.Type.Methods() {
-			taken[m.Name] = true
-			if !m.IsCtor {
-				t := target{f, m}
-				targets = append(targets, t)
-				if f.Pkg == p.HotPkg && f.Type.Name == p.HotClass && m.Name == p.HotMethod && hot == nil {
-					hot = &t
+		for _, ty := range f.Types() {
+			for _, m := range ty.Methods() {
+				taken[m.Name] = true
+				if !m.IsCtor {
+					t := target{f, ty, m}
+					targets = append(targets, t)
+					if f.Pkg == p.HotPkg && ty.Name == p.HotClass && m.Name == p.HotMethod && hot == nil {
+						hot = &t
+					}
 				}
 			}
+		}
+		if len(f.Extra) > 0 {
+			o.Count("files_with_two_top_level_types", 1)
 		}
 	}
 	if len(targets) == 0 {
@@ -150,7 +156,7 @@ func runCase(c *run.Ctx, o *run.Outcome) {
 	}
 	oldName := tg.m.Name
 	nn := newName(r, taken)
-	cls := tg.f.Pkg + "." + tg.f.Type.Name
+	cls := tg.f.Pkg + "." + tg.t.Name
 	conf := cls + "." + oldName + " -> " + cls + "." + nn
 	dir := filepath.Join(c.Scratch(), "proj")
 	if _, err := common.WriteProject(dir, p); err != nil {
@@ -188,12 +194,20 @@ func runCase(c *run.Ctx, o *run.Outcome) {
 	edits := map[string][]edit{} // rel path -> edits
 	for _, ds := range full {
 		f := byAbs[ds.FilePath]
-		if f == nil || f.Type == nil || f.Type.Name != ds.NodeName {
+		var ty *javagen.TypeDecl
+		if f != nil {
+			for _, cand := range f.Types() {
+				if cand.Name == ds.NodeName {
+					ty = cand
+				}
+			}
+		}
+		if ty == nil {
 			o.SetInconclusive("model lists a type the generator did not plant there (C01's business)")
 			return
 		}
 		planted := map[string][]*javagen.Method{}
-		for _, m := range f.Type.Methods() {
+		for _, m := range ty.Methods() {
 			k := m.Name + "/" + fmt.Sprint(len(m.Params))
 			planted[k] = append(planted[k], m)
 		}
@@ -311,8 +325,11 @@ func runCase(c *run.Ctx, o *run.Outcome) {
 	case mbBefore:
 		situation = "multibyte-before-site"
 	}
-	if tg.f.Type.Kind == "Interface" {
+	if tg.t.Kind == "Interface" {
 		situation += "/interface-method"
+	}
+	if len(tg.f.Extra) > 0 {
+		situation += "/file-with-two-types"
 	}
 
 	// the refactoring
